@@ -166,6 +166,8 @@ def string_enum(rng, nvariants=None, *, allow_default=True, allow_disabled=True,
         it.variants.append(v)
     if it.tparams and not any(f.ty == "G0" for v in it.variants for f in v.fields):
         it.tparams = 0
+    if rng.random() < 0.12:
+        it.via_macro = True        # the enum comes out of a macro_rules! expansion, attribute values passed in as fragments
     return it
 
 
@@ -330,11 +332,11 @@ def model_query(prop: str, items, queries_per_item):
 def real_structure(prop: str, items, derive="EnumString"):
     """structural summaries of the REAL generated code (harness/genprobe `struct`), per candidate definition;
     None when the probe cannot be built"""
-    from .defs import render_item
+    from .defs import plain_source
     binp, err = R.build_genprobe()
     if binp is None:
         return [None] * len(items)
-    lines = ["struct %d %s %s" % (k, derive, hx(render_item(it, []))) for k, it in enumerate(items)]
+    lines = ["struct %d %s %s" % (k, derive, hx(plain_source(it))) for k, it in enumerate(items)]
     obs, died = R.run_genprobe(binp, lines, os.path.join(R.WORK, prop, "struct"))
     return [obs.get(k) for k in range(len(items))]
 
